@@ -78,7 +78,7 @@ MonInit(p) ==
    want |-> [v \in DOMAIN p.vk |-> FALSE],  \* logical state after the operations issued so far
    down |-> [v \in DOMAIN p.vk |-> FALSE],  \* state after the events processed so far
    hf |-> [v \in DOMAIN p.vk |-> 0],        \* hold-for-duration: tick-ends until the release is issued
-   idl |-> <<>>,                            \* armed on-idle entries [k, v, op, d]
+   idl |-> <<>>,                            \* armed on-idle entries [v, op, d]
    ic |-> 0,                                \* consecutive idle tick-ends (capped)
    seqs |-> <<>>,                           \* running trigger macros [k, pos, delay]
    cq |-> <<>>,                             \* macro items reached: [k, s, ph "p"|"a"]
@@ -116,7 +116,9 @@ VHfdAct(m, v, d) ==
   ELSE VPush([m EXCEPT !.hf[v] = d, !.want[v] = TRUE], VIt("vd", v, "hfd"))
 
 VArm(m, k, it) ==
-  LET e == [k |-> k, v |-> it.v, op |-> it.op, d |-> it.d] IN
+  \* an armed entry is (operation, virtual key, idle time): arming the same one again, from whichever key, only
+  \* restarts the count (soft zone of the statement; the code keeps a set)
+  LET e == [v |-> it.v, op |-> it.op, d |-> it.d] IN
   [m EXCEPT !.ic = 0, !.idl = IF InSeq(@, e) THEN @ ELSE Append(@, e)]
 
 RECURSIVE VExecItems(_, _, _)
